@@ -59,7 +59,8 @@ def plugin_failure_case(mode: str, hook_name: str) -> dict:
             raise RuntimeError(f'plugin failure in {hook_name} (injected by the harness)')
         boom.__name__ = hook_name
         Bad = type('Bad', (), {hook_name: hookimpl(boom)})
-        nl.register(Bad())
+        bad = Bad()
+        nl.register(bad)
         await sc.op('start')
         await sc.op(mode)
         now = datetime.datetime.utcnow
@@ -73,7 +74,8 @@ def plugin_failure_case(mode: str, hook_name: str) -> dict:
             c.exit(RunResult(ret=5), exitcode=0)
         await lifecycle.settle()
         out: dict = {'mode': mode, 'hook': hook_name, 'state': nl.state, 'enabled': nl.continuous_enabled}
-        # the next, plain run must be interactive: its prompt stays unanswered
+        # the next, plain run must be interactive: its prompt stays unanswered (the faulty plugin is gone by then)
+        nl.unregister(bad)
         await sc.op('reset - - - -')
         await sc.op('run')
         rep = await sc.op('prompt')
